@@ -10,6 +10,7 @@ require (
 
 require (
 	github.com/AdguardTeam/golibs v0.29.0 // indirect
+	golang.org/x/exp v0.0.0-20240909161429-701f63a606c0 // indirect
 	golang.org/x/sys v0.25.0 // indirect
 )
 
